@@ -8,6 +8,7 @@ import (
 	"github.com/jrhy/s3db"
 
 	"verifh/fs3"
+	"verifh/walk"
 )
 
 func init() {
@@ -53,7 +54,13 @@ func c20Name(r *Rng, i int) (name, spelled string) {
 	bare := []string{"a", "b1", "col_x", "MixedCase", "UPPER", "z9", "name", "email", "k", "_under"}
 	spaced := []string{"my col", "two words", "with-dash", "sel ect"}
 	keywords := []string{"select", "order", "group", "table", "index", "where", "from", "key", "primary"}
-	switch r.Intn(8) {
+	switch r.Intn(9) {
+	case 8:
+		// (the grammar has no escape inside double-quoted names: "[^"]*")
+		// a single quote inside a single-quoted name is written twice - and each of those once
+		// more inside the single-quoted columns='...' value
+		n := fmt.Sprintf("it's%d", i)
+		return n, "''" + strings.ReplaceAll(n, "'", "''''") + "''"
 	case 0, 1, 2, 3:
 		n := fmt.Sprintf("%s%d", bare[r.Intn(len(bare))], i)
 		return n, n
@@ -145,7 +152,7 @@ func runC20(c *Case) {
 	putsSince := func(n0 int) int {
 		n := 0
 		for _, ev := range st.LogSince(n0) {
-			if ev.Op == fs3.OpPut {
+			if ev.Op == fs3.OpPut || ev.Op == fs3.OpDel {
 				n++
 			}
 		}
@@ -154,6 +161,25 @@ func runC20(c *Case) {
 	create := func(t string, args []string) (string, error) {
 		q := fmt.Sprintf("create virtual table %s using s3db (%s)", t, strings.Join(args, ", "))
 		return q, conn.Exec(q)
+	}
+	// half of the hooked cases keep a prefix with two unmerged versions: opening it read-write
+	// commits their merge, so a CREATE that is going to be rejected must not get that far
+	fork := false
+	if !builtin && c.Index%2 == 0 {
+		f1, f2 := tname(c, "f1"), tname(c, "f2")
+		e1 := conn.Create(TableSpec{Name: f1, Cols: "k PRIMARY KEY, v", Store: st.Name, Client: "f1", Prefix: "fork"})
+		e2 := conn.Create(TableSpec{Name: f2, Cols: "k PRIMARY KEY, v", Store: st.Name, Client: "f2", Prefix: "fork"})
+		if e1 == nil && e2 == nil {
+			e1 = conn.Exec("insert into " + f1 + " values (1,'one')")
+			e2 = conn.Exec("insert into " + f2 + " values (2,'two')")
+		}
+		conn.Exec("drop table " + f1)
+		conn.Exec("drop table " + f2)
+		if e1 != nil || e2 != nil {
+			c.Violate("C20:setup", fmt.Sprintf("fork prefix: %v %v", e1, e2), nil)
+			return
+		}
+		fork = len(walk.VersionNames(st.Snapshot(), walk.Base("fork"), "current")) == 2
 	}
 	for i := 0; i < 24 && c.Res.Status != "violated"; i++ {
 		t := tname(c, "d")
@@ -171,9 +197,12 @@ func runC20(c *Case) {
 		why := ""
 		switch class {
 		case "reject":
-			switch r.Intn(14) {
+			switch r.Intn(15) {
+			case 14:
+				args[0] = "columns='" + []string{"a primary key, b, A", "k primary key, Val, vAL", "x, X"}[r.Intn(3)] + "'"
+				why = "duplicate column differing in case"
 			case 13:
-				args[0] = "columns='_rowid_, a'"
+				args[0] = "columns='" + []string{"_rowid_, a", "a, _ROWID_", "a, b, \"_rowid_\""}[r.Intn(3)] + "'"
 				why = "column clashing with the hidden key of a table without PRIMARY KEY"
 			case 0:
 				args = append(args, "bogus_option=1")
@@ -256,6 +285,14 @@ func runC20(c *Case) {
 			}
 			args = na
 		}
+		if class == "reject" && fork && r.Bool() {
+			for j, a := range args {
+				if strings.HasPrefix(a, "s3_prefix=") {
+					args[j] = "s3_prefix='fork'"
+				}
+			}
+			c.Count("rejects_on_prefix_with_unmerged_versions", 1)
+		}
 		n0 := st.LogLen()
 		q, err := create(t, args)
 		fmt.Fprintf(&canon, "%s;", strings.Replace(q, t, "T", 1))
@@ -270,7 +307,7 @@ func runC20(c *Case) {
 			}
 			if !builtin {
 				if n := putsSince(n0); n > 0 {
-					fail("rejected-but-wrote", fmt.Sprintf("CREATE failed (%v) but %d objects were written", err, n))
+					fail("rejected-but-wrote", fmt.Sprintf("CREATE failed (%v) but it issued %d PUT/DELETE requests", err, n))
 					return
 				}
 			}
@@ -309,6 +346,8 @@ func runC20(c *Case) {
 				kind := "other"
 				for _, col := range cols {
 					switch {
+					case strings.ContainsAny(col.Name, `'"`):
+						kind = "quote-inside-quoted-name"
 					case strings.Contains(col.Spelled, " "):
 						kind = "quoted-name-with-space"
 					case strings.HasPrefix(col.Spelled, `"`) && kind == "other":
